@@ -60,7 +60,12 @@ from bitproto.errors import (
 )
 from bitproto.grammars import *
 from bitproto.lexer import Lexer
-from bitproto.utils import cast_or_raise, override_docstring, write_stderr
+from bitproto.utils import (
+    cast_or_raise,
+    int_literal,
+    override_docstring,
+    write_stderr,
+)
 
 
 class Parser:
@@ -569,7 +574,7 @@ class Parser:
             element_type=p[1],
             cap=p[3],
             extensible=p[5],
-            token="{0}[{1}]".format(p[1], p[3]),
+            token="{0}[{1}]".format(p[1], int_literal(p[3])),
             token_col_start=self._get_col(p, 1),
             lineno=p.lineno(2),
             filepath=self.current_filepath(),
@@ -780,7 +785,8 @@ class Parser:
         if p is None:
             raise GrammarError(message="Grammar error at eof.", filepath=filepath)
         if isinstance(p, LexToken):
-            raise GrammarError(filepath=filepath, token=str(p.value), lineno=p.lineno)
+            token = int_literal(p.value) if type(p.value) is int else str(p.value)
+            raise GrammarError(filepath=filepath, token=token, lineno=p.lineno)
         if len(p) > 1:
             raise GrammarError(filepath=filepath, token=p.value(1), lineno=p.lineno(1))
         raise GrammarError()
